@@ -343,8 +343,8 @@ def gen_specs(rng: random.Random, tier: str, n: int) -> list[dict]:
     n_cfg = max(1, n // (3 * K))
     specs = []
     cfgs = []
-    for _ in range(n_cfg):
-        T = _ds.rand_cfgspec(rng, max_n=6, max_mazes=8, filters=True, rich_endpoints=rng.random() < 0.3, big_mazes=0.06)
+    for ci in range(n_cfg):
+        T = _ds.rand_cfgspec(rng, max_n=6, max_mazes=8, filters=True, rich_endpoints=rng.random() < 0.3, big_mazes=0.06, force="float_kwargs" if ci % 8 == 3 else None)
         T["applied_filters"] = [f for f in T["applied_filters"]]
         cfgs.append(T)
     for T in cfgs:
